@@ -20,8 +20,8 @@ ASSUMPTIONS = [
     'total time is n_frames x time_step (the library\'s documented total_time)',
     'FFT round-off: comparison at rtol 1e-9 of the largest MSD value of the case',
 ]
-N_CASES = {'quick': 400, 'thorough': 6000}
-BUDGET_S = {'quick': 200, 'thorough': 2400}
+N_CASES = {'quick': 400, 'thorough': 30000}
+BUDGET_S = {'quick': 200, 'thorough': 3600}
 ANGSTROM = 1e-10
 
 _mon = Monitor()
